@@ -164,6 +164,11 @@ class ShutModel:
 
     # ---- formatting helpers of World.run (progress-bar layout): values abstracted away
     def _fmt_builtin(self, it, node, k, a, kw):
+        if k == "len" and len(a) == 1 and isinstance(a[0], TaskSet):
+            n = it.p.fresh("n_leftover", "int")
+            t = z3.Const("t!len", self.Task)
+            it.p.assume(And(n >= 0, (n > 0) == z3.Exists([t], self.pending0(t))))
+            return n
         if any(isinstance(x, (Opaque, ItemsColl, SimsDictS)) for x in a) or k == "str":
             if k == "str":
                 return Opaque("str")
@@ -370,9 +375,10 @@ class ShutModel:
         return NotImplemented
 
     def havoc_value(self, it, nm, cur):
-        if nm == "first_error":
-            # Optional[Exception]: both cases are paths; which one is tied to the ghost state by the invariant
-            if it.decide(it.p.fresh("first_error_is_set", "bool")):
+        if cur is None or isinstance(cur, ExcValue):
+            # a local holding Optional[Exception] (the remembered first failure): both cases are paths; which one is tied to
+            # the ghost state by the invariant
+            if it.decide(it.p.fresh("remembered_error_is_set", "bool")):
                 return ExcValue("ConnectionResetError", ())
             return None
         return NotImplemented
@@ -554,9 +560,13 @@ class WorldShutdown(_S):
         M, g = self._M, self._p.ghost
         s = z3.Const("s!inv", M.Sim)
         some_failed = z3.Exists([s], And(v.seen[s], g["stop_failed"][s]))
+        # the local that remembers the first failure, whatever it is called: the one holding None or an exception
+        kept = [x for n, x in v.locals().items() if n not in ("self", "e") and (x is None or isinstance(x, ExcValue))]
+        remembered = kept[0] if len(kept) == 1 else "ambiguous"
         return {"each_seen_simulator_stopped_exactly_once": z3.ForAll([s], g["stop_cnt"][s] == z3.If(v.seen[s], 1, 0)),
                 "failures_are_recorded": z3.ForAll([s], g["stop_failed"][s] == And(v.seen[s], M.fails(s))),
-                "first_error_kept_iff_some_stop_failed": some_failed if v.first_error is not None else Not(some_failed),
+                "first_error_kept_iff_some_stop_failed": (False if remembered == "ambiguous" else
+                                                          (some_failed if remembered is not None else Not(some_failed))),
                 "loop_untouched_so_far": not self.events("loop", "gather"),
                 "no_task_cancelled_yet": g["cancelled"] == z3.K(M.Task, z3.BoolVal(False))}
 
